@@ -843,6 +843,11 @@ def _format_value(value: Any) -> str:
     s = _encode_non_ascii(s)
 
     if (quotes := _quotes_for_string_value(s)) == ';':
+        if '\n;' in s:
+            raise ValueError(
+                "CIF 1.1 cannot encode a value with a line break followed by "
+                f"a semicolon: {s!r}"
+            )
         return f'; {s}\n;'
     elif quotes is not None:
         return quotes + s + quotes
